@@ -770,6 +770,21 @@ def explore_recv(M, K, budget_s=600, script=None, concrete=None, lmin=1, record_
             "unsat_smt2": I.smt2_queries}
 
 
+def coarse(kind):
+    """Outcome classes used when the encoding is compared with the real function: unpickling is opaque in the
+    encoding, so 'a message was returned from a truncated stream' and 'some exception other than ConnectionClosedError
+    was raised on a truncated stream' are the same class (truncation not reported)."""
+    if kind is None:
+        return None
+    if kind.startswith("ok"):
+        return kind
+    if kind == "returned-message-from-truncated-stream" or kind.endswith("-instead-of-ConnectionClosedError"):
+        return "truncation-not-reported"
+    if kind.endswith("-on-complete-message") and kind != "closed-error-on-complete-message":
+        return "exception-on-complete-message"
+    return kind
+
+
 # ---- replay of a witness against the real function ------------------------------------------------
 class ScriptSock:
     """recv() returns exactly the scripted segment sizes (then as much as asked), FIN/RST at the end."""
@@ -848,8 +863,8 @@ def replay(body):
     w = body["witness"]
     out = real_outcome(w["L"], w["E"], w["rst"], w["ks"])
     text = "witness L=%s E=%s rst=%s segments=%s -> real recv_msg: %s (encoding said %s)" % (w["L"], w["E"], w["rst"], w["ks"], out, w["kind"])
-    if out is not None and out[0] == w["kind"]:
-        return False, {"signature": "c10.smt." + w["kind"], "detail": text}, text
+    if out is not None and coarse(out[0]) == coarse(w["kind"]):
+        return False, {"signature": "c10.smt." + coarse(w["kind"]), "detail": text}, text
     return True, None, text
 
 
@@ -884,7 +899,7 @@ def validate(n_scripts=40, seed=0):
         import pyworkers.remote as remote
         real = _real_with(S, Ls, E, rst)
         done += 1
-        if len(enc) != 1 or real is None or enc[0] != real[0]:
+        if len(enc) != 1 or real is None or coarse(enc[0]) != coarse(real[0]):
             mism.append({"L": Ls, "E": E, "rst": rst, "script": script, "encoding": enc, "real": real})
     return done, mism
 
@@ -959,8 +974,8 @@ def solve_c10(ob):
             continue
         seen.add(w["kind"])
         real = real_outcome(w["L"], w["E"], w["rst"], w["ks"])
-        if real is not None and real[0] == w["kind"]:
-            out.update(status="refuted", replayed=True, failure={"signature": "c10.smt." + w["kind"], "detail": str(w)},
+        if real is not None and coarse(real[0]) == coarse(w["kind"]):
+            out.update(status="refuted", replayed=True, failure={"signature": "c10.smt." + coarse(w["kind"]), "detail": str(w)},
                        args=w, replay_body={"property": "C10", "harness": "smt", "custom_replay": "vf.ast2smt:replay", "witness": w,
                                             "args": w, "fn": "vf.ast2smt:replay"})
             return out
@@ -975,7 +990,8 @@ def solve_validate(ob):
     except NotEncodable as e:
         return {"status": "unknown", "why": "not encodable: %s" % e, "paths": 0}
     if mism:
-        return {"status": "error", "error": "translator validation mismatch: %s" % mism[:3], "paths": done}
+        # the encoding does not describe the current source faithfully: tier B is inconclusive (tier A still decides)
+        return {"status": "unknown", "why": "translator validation mismatch (encoding vs real function): %s" % mism[:2], "paths": done}
     return {"status": "confirmed", "paths": done, "distinct_extra": 1,
             "sample": {"engine": "ast2smt-validation", "scripts_compared_with_real_function": done, "mismatches": 0}}
 
